@@ -153,7 +153,7 @@ impl Lattice {
                 min_cost == i32::MAX ==> (forall|k: int| 0 <= k < __it_i ==> !connected(#[trigger] self.ends@[begin as int]@[k])),
             decreases self.ends@[begin as int]@.len() - __it_i
 //@  before let new_cost = 
-            proof { assert(via(*self, *conn, *r_node, i as int) == l_node.total_cost + connect_cost + node_cost); }
+            #[if_ident(connect_cost)] proof { assert(via(*self, *conn, *r_node, i as int) == l_node.total_cost + connect_cost + node_cost); }
 //@end
 
 //@extract sudachi/src/analysis/lattice.rs :: impl Lattice :: fn connect_node
